@@ -88,7 +88,7 @@ pub broadcast axiom fn val_bytes_u32(v: u32)
         val_bytes::<u32>(v)[2] == ((v >> 16) & 0xff) as u8, val_bytes::<u32>(v)[3] == ((v >> 24) & 0xff) as u8;
 
 pub assume_specification<T: core::marker::PointeeSized, U>[ <*const T>::cast::<U> ](p: *const T) -> (r: *const U)
-    ensures (r as *const u8 as usize) == (p as *const u8 as usize);
+    ensures (r as usize) == (p as *const u8 as usize);
 
 pub assume_specification<T>[ <*const T>::read_unaligned ](p: *const T) -> (r: T)
     requires rdr(addr(p), addr(p) + core::mem::size_of::<T>()),
@@ -123,7 +123,7 @@ pub assume_specification<T>[ <*const T>::offset ](p: *const T, n: isize) -> (r: 
 
 pub broadcast axiom fn val_bytes_usize(v: usize)
     ensures (#[trigger] val_bytes::<usize>(v)).len() == 8,
-        forall|k: int| 0 <= k < 8 ==> val_bytes::<usize>(v)[k] == (((v as u64) >> ((8 * k) as u64)) & 0xff) as u8;
+        forall|k: int| 0 <= k < 8 ==> #[trigger] val_bytes::<usize>(v)[k] == (((v as u64) >> ((8 * k) as u64)) & 0xff) as u8;
 pub broadcast proof fn sz_usize()
     ensures #[trigger] core::mem::size_of::<usize>() == 8,
 {}
